@@ -101,11 +101,11 @@ func f3Programs() []f3prog {
 func genF3(g *fw.GenCtx, em *emitter) (reps []Exec) {
 	for _, p := range f3Programs() {
 		// (a) driven like `falco test`: helper subroutines in the main VCL, body as the test subroutine
-		e := Exec{Fam: "F3", Con: p.con, Mode: "sub", Scope: "RECV", Main: "backend example { .host = \"127.0.0.1\"; .port = \"1\"; }\n" + p.decls + mainTail, Body: p.body, Bound: true, Tag: p.con}
+		e := Exec{Fam: "F3", Con: p.con, Mode: "sub", Scope: "RECV", Main: "backend example { .host = \"127.0.0.1\"; .port = \"1\"; }\n" + p.decls + mainTail, Body: p.body, Bound: true, Tag: p.con, Iso: true}
 		em.add(e)
 		// (b) through ServeHTTP: the body is vcl_recv
 		h := Exec{Fam: "F3", Con: p.con, Mode: "http", Main: "backend example { .host = \"@ORIGIN_HOST@\"; .port = \"@ORIGIN_PORT@\"; }\n" + p.decls + "sub vcl_recv {\n#FASTLY RECV\n" + p.body + "\nreturn(pass);\n}\n",
-			Reqs: []string{stdReq("/a"), stdReq("/b")}, Bound: true, Tag: p.con}
+			Reqs: []string{stdReq("/a"), stdReq("/b")}, Bound: true, Tag: p.con, Iso: true}
 		em.add(h)
 		if !strings.HasPrefix(p.con, "calltree:functional-fanout/40") {
 			// the 2^40 fan-out never ends: the tester has no step budget, so that one stays out of F8
@@ -113,8 +113,8 @@ func genF3(g *fw.GenCtx, em *emitter) (reps []Exec) {
 		}
 	}
 	// recursion of a lifecycle subroutine itself
-	em.add(Exec{Fam: "F3", Con: "recursion:vcl_recv-calls-itself/http", Mode: "http", Main: "backend example { .host = \"@ORIGIN_HOST@\"; .port = \"@ORIGIN_PORT@\"; }\nsub vcl_recv {\n#FASTLY RECV\ncall vcl_recv;\n}\n", Reqs: []string{stdReq("/a")}, Bound: true, Tag: "recursion:vcl_recv"})
-	em.add(Exec{Fam: "F3", Con: "recursion:vcl_deliver-calls-vcl_recv/http", Mode: "http", Main: "backend example { .host = \"@ORIGIN_HOST@\"; .port = \"@ORIGIN_PORT@\"; }\nsub vcl_recv {\n#FASTLY RECV\nreturn(pass);\n}\nsub vcl_deliver {\n#FASTLY DELIVER\ncall vcl_recv;\ncall vcl_deliver;\n}\n", Reqs: []string{stdReq("/a")}, Bound: true, Tag: "recursion:vcl_deliver"})
+	em.add(Exec{Fam: "F3", Con: "recursion:vcl_recv-calls-itself/http", Mode: "http", Main: "backend example { .host = \"@ORIGIN_HOST@\"; .port = \"@ORIGIN_PORT@\"; }\nsub vcl_recv {\n#FASTLY RECV\ncall vcl_recv;\n}\n", Reqs: []string{stdReq("/a")}, Bound: true, Tag: "recursion:vcl_recv", Iso: true})
+	em.add(Exec{Fam: "F3", Con: "recursion:vcl_deliver-calls-vcl_recv/http", Mode: "http", Main: "backend example { .host = \"@ORIGIN_HOST@\"; .port = \"@ORIGIN_PORT@\"; }\nsub vcl_recv {\n#FASTLY RECV\nreturn(pass);\n}\nsub vcl_deliver {\n#FASTLY DELIVER\ncall vcl_recv;\ncall vcl_deliver;\n}\n", Reqs: []string{stdReq("/a")}, Bound: true, Tag: "recursion:vcl_deliver", Iso: true})
 	em.flush()
 	return reps
 }
